@@ -10,7 +10,10 @@ Correspondence:
         write path then every read path on MemoryFS and OSFS, plus cross-backend copy_file /
         move_file — the oracle is the property itself: bytes out == bytes in, getsize == len;
   (iii) text layer: fs.open/writetext/readtext/appendtext against io.TextIOWrapper over BytesIO
-        for encodings x newline x errors settings (validated only; codecs are external).
+        for encodings x newline x errors settings;
+  (iv)  props/_textmodel.py: the Lean text model (newlines, codecs, byte-order marks, make_stream /
+        FS.open / io.open layer stacks, RawWrapper, buffering; theorems in FsProofs/TextLaws.lean)
+        against io / codecs / the real fs.iotools and end-to-end on MemoryFS and OSFS.
 """
 from __future__ import annotations
 
@@ -22,10 +25,13 @@ import tempfile
 
 import vlib
 from vlib import hx
+from props import _textmodel
+
+EXTRA_PROOF_MODULES = ("FsProofs.TextLaws",)
 
 SCRATCH_ROOT = os.environ.get("VERIF_SCRATCH", "/tmp/verif-scratch")
 MAXVIOL = 6
-LEANCHECKER_MODULES = ["FsProofs.C02"]
+LEANCHECKER_MODULES = ["FsProofs.C02", "FsProofs.TextLaws"]
 
 
 # ----------------------------------------------------------------------------- sources / sinks
@@ -611,11 +617,16 @@ def run(rep, tier, seed, deep=False):
         "write paths %r x read paths %r (+ getsize, details.size, md5/sha256 via FS.hash) on MemoryFS and OSFS; "
         "copy_file/move_file across {mem,os}^2; copy_file_data with 4 short-read oracles per (c, length) + exhaustive "
         "tiny scope (len<=6, chunk -1..4, oracles of length<=2) compared chunk-by-chunk with the Lean model; "
-        "text: encodings utf-8/utf-16/latin-1/ascii+errors x newline in %r vs io.TextIOWrapper(BytesIO). "
+        "text: encodings utf-8/utf-16/latin-1/ascii+errors x newline in %r vs io.TextIOWrapper(BytesIO); text model: all strings of "
+        "length <=5 over {a,CR,LF} x 5 newlines, codecs on random scalars / malformed bytes, layer stacks for 32 mode spellings x buffering "
+        "{-1,0,1,8192}, end-to-end 10 codec settings x 5 newlines x texts on mem/os, buffering and RawWrapper sessions (design.d/TEXT.md). "
         "distinct = distinct (backend, write path, read path, chunk, length) / copy-loop / text cases"
         % (chunks, [w for w, _ in WRITE_PATHS], [r for r, _ in READ_PATHS], NEWLINES))
     rep.assumptions = [
-        "Python codecs and io.TextIOWrapper are external: the text layer is validated against them, not proved",
+        "codecs are external: the text theorems (FsProofs/TextLaws.lean) assume Codec.Roundtrip (dec (enc s) = s on encodable strings); "
+        "UTF-8, UTF-16-LE, UTF-32-LE, latin-1, ascii are given in Lean and proved to satisfy it; os.linesep = '\\n'",
+        "io.TextIOWrapper's newline machinery and the Buffered* classes are re-stated / specified in Lean (FsModel/Text.lean) and validated "
+        "against the real ones on every run (props/_textmodel.py), not transcribed from C",
         "io.BytesIO / BufferedReader sources used by upload are external (short reads are modelled by the oracle reader)",
         "FTPFS, archives (C15) and the bulk Copier (C09) are not exercised here; MemoryFS and OSFS only",
         "hash streams are compared through md5 and sha256 digests",
@@ -627,6 +638,7 @@ def run(rep, tier, seed, deep=False):
         check_cross(rep, rng, B, [1, 7, 4096] if quick else [1, 7, 4096, 65536])
         check_text(rep, B)
         check_text_append_bom(rep, B)
+        _textmodel.check_text_model(rep, drv, vlib.rng_for(seed, "c02-text"), tier)
         rep.extra["exhaustive"] = True
         if B.lost() and rep.violations:
             raise vlib.Infra("scratch directories %r were removed by a concurrent run; differences seen in this "
@@ -641,6 +653,8 @@ def run(rep, tier, seed, deep=False):
 def replay(rep, case):
     vlib.repo_on_path()
     c = case["case"]
+    if c.get("kind") in _textmodel.REPLAY_KINDS + ("text",):
+        return _textmodel.replay(rep, c)
     B = Backends()
     try:
         if c.get("kind") in ("upload0", "download0"):
